@@ -155,6 +155,7 @@ type unitCase struct {
 	Stack     string  `json:"stack,omitempty"`   // e2e: h1-cl | h1-chunked | h1-close | h2 | h3
 	GapMS     int     `json:"gap_ms,omitempty"`  // e2e: pause between segments
 	HighLevel bool    `json:"high_level,omitempty"` // e2e: Client.R().Get + Response.Bytes()
+	Gzip      bool    `json:"gzip,omitempty"` // e2e: served gzip-compressed (decompressed by the transport before the charset stage)
 	HLMode    string  `json:"high_level_mode,omitempty"` // bytes | buffer (SetOutput(*bytes.Buffer)) | writer (SetOutput(plain io.Writer))
 }
 
